@@ -358,8 +358,8 @@ func c01Run(x *mc.Exec, sc c01Scenario, rep *mc.Report) mc.Verdict {
 	if res.Deadlock || res.StepCap || res.Horizon {
 		return mc.Verdict{Violation: fmt.Sprintf("%s: execution did not finish (%+v)", sc.name, res), Sig: "C01:agent-stuck", Detail: map[string]any{"scenario": sc.name, "blocked": res.Blocked}}
 	}
-	if res.Leaked > 0 {
-		panic(c01Infra(fmt.Sprintf("%d goroutines leaked in scenario %s", res.Leaked, sc.name)))
+	if res.Leaked > 0 && !vsched.NoteLeak(res.Leaked) {
+		panic(c01Infra(fmt.Sprintf("too many leaked goroutines (%d more in scenario %s)", res.Leaked, sc.name)))
 	}
 	key := sc.name + "|" + strings.Join(agg.sends, ",")
 	rep.State(key)
